@@ -205,7 +205,10 @@ func VerifC16_InterruptedStore() {
 	verif.Advance(300 * time.Millisecond)
 
 	c := vNewClient(kind, inner)
-	_ = c.cache.CleanEntry(ctx, vKey) // stale-lock cleaning (lock-based cache) / old-version cleaning
+	// stale-lock cleaning for the lock-based cache; for the immutable one cleaning (of old versions) is optional
+	if kind == CacheMutable || verif.Bool("cleanBeforeFetch") {
+		_ = c.cache.CleanEntry(ctx, vKey)
+	}
 	staleHash := vHashFileIsStale(c)
 	err3 := c.cache.Fetch(ctx, vKey, "/dest")
 	if err3 == nil {
